@@ -39,12 +39,13 @@ import (
 // ---------------- recorded history ----------------
 
 type ReqSnap struct {
-	Method string
-	URL    string
-	Host   string
-	Header http.Header
-	Ctx    context.Context
-	HdrPtr uintptr
+	Method    string
+	RawMethod string // as the field stands in the caller's value ("" is a legal spelling of GET)
+	URL       string
+	Host      string
+	Header    http.Header
+	Ctx       context.Context
+	HdrPtr    uintptr
 }
 
 // OResp is one response produced by the simulated origin.
@@ -976,7 +977,7 @@ func pctCase(s string, upper bool) string {
 }
 
 func snapReq(req *http.Request) ReqSnap {
-	s := ReqSnap{Method: req.Method, Host: req.Host, Header: req.Header.Clone(), Ctx: req.Context()}
+	s := ReqSnap{Method: req.Method, RawMethod: req.Method, Host: req.Host, Header: req.Header.Clone(), Ctx: req.Context()}
 	if s.Method == "" {
 		s.Method = http.MethodGet // net/http: an empty method means GET
 	}
